@@ -31,32 +31,51 @@ def bounds(tier, seed):
                 reductions=RED_PLAIN + RED_W, components=[1, 3])
 
 
-def _configs(tier, full):
+def _configs(tier, full, third=True):
+    """quick: the data-path axis (reduction x components x weights) with the default coordinate path; centre coordinates with the
+    non-idempotent reductions; the core coordinate-path axis (block spec x region x centre x drop x 1-D/2-D C/2-D Fortran) with two
+    data paths; and - for a third of the placements (`third`) - the representation forms (mixed layouts, integer dtypes, large
+    offsets) and a non-dividing spacing under both adjust modes.  thorough (`full`): everything crossed."""
     a_axis = [dict(red=r, ncomp=c, w=False) for r in RED_PLAIN for c in (1, 2, 3)] + \
              [dict(red=r, ncomp=c, w=True) for r in RED_W for c in (1, 2, 3)]
-    b_axis = [dict(block=bk, region=rg, center=ce, drop=dr, form=fm)
-              for bk in ("spacing", "shape", "spacing_nd_s", "spacing_nd_r") for rg in ("given", "inferred") for ce in (False, True)
-              for dr in (True, False) for fm in ("1d", "2d", "2dF", "mixed", "int", "int_e", "far")]
     b0 = dict(block="spacing", region="given", center=False, drop=True, form="1d")
     if full:
         for a in a_axis:
-            for b in b_axis:
-                yield dict(a, **b)
+            for bk in ("spacing", "shape", "spacing_nd_s", "spacing_nd_r"):
+                for rg in ("given", "inferred"):
+                    for ce in (False, True):
+                        for dr in (True, False):
+                            for fm in ("1d", "2d", "2dF", "mixed", "int", "int_e", "far"):
+                                yield dict(a, block=bk, region=rg, center=ce, drop=dr, form=fm)
         return
+    two = (dict(red="mean", ncomp=1, w=False), dict(red="average", ncomp=2, w=True))
     for a in a_axis:
         yield dict(a, **b0)
-    # centre coordinates together with reductions that are not idempotent (seed C09-r3_1: points moved to the centre BEFORE reducing)
     for r in ("sum", "max", "median"):
         for dr in (True, False):
             yield dict(dict(red=r, ncomp=1, w=False), **dict(b0, center=True, drop=dr))
     yield dict(dict(red="wsum", ncomp=2, w=True), **dict(b0, center=True, drop=False))
-    for b in b_axis:
-        if b == b0:
-            continue
-        if b["form"] in ("mixed", "int", "int_e", "far") and (b["block"] != "spacing" or not b["drop"]):
-            continue   # quick: the representation forms are crossed with region and centre options only
-        yield dict(dict(red="mean", ncomp=1, w=False), **b)
-        yield dict(dict(red="average", ncomp=2, w=True), **b)
+    for bk in ("spacing", "shape"):
+        for rg in ("given", "inferred"):
+            for ce in (False, True):
+                for dr in (True, False):
+                    for fm in ("1d", "2d", "2dF"):
+                        b = dict(block=bk, region=rg, center=ce, drop=dr, form=fm)
+                        if b == b0:
+                            continue
+                        for a in two:
+                            yield dict(a, **b)
+    if third:
+        for fm in ("mixed", "int", "int_e", "far"):
+            for rg in ("given", "inferred"):
+                for ce in (False, True):
+                    for a in two:
+                        yield dict(a, block="spacing", region=rg, center=ce, drop=True, form=fm)
+        for bk in ("spacing_nd_s", "spacing_nd_r"):
+            for rg in ("given", "inferred"):
+                for ce in (False, True):
+                    for a in two:
+                        yield dict(a, block=bk, region=rg, center=ce, drop=True, form="1d")
 
 
 def cases(tier, seed):
@@ -67,7 +86,7 @@ def cases(tier, seed):
         for n in range(1, nmax + 1):
             for ms in itertools.combinations_with_replacement(range(nsites), n):
                 full = tier == "thorough" and (nbx, nby) == (2, 2) and n <= 3
-                for cfg in _configs(tier, full):
+                for cfg in _configs(tier, full, third=(sum(ms) % 3 == 0)):
                     for order in ("asc", "rev"):
                         if n == 1 and order == "rev":
                             continue
